@@ -10,18 +10,19 @@ FIO = fileio.FileIO()
 def R(x): return x if is_sym(x) else z3.RealVal(F(x))
 FMT = {0: '.gro (GROWriter -> GROReader)', 1: 'LAMMPS dump (LAMMPSDumpWriter -> LAMMPSDumpReader)'}
 
-def run(mod, parsed, fmt, n, flags, nframes, nread, boxkind, step=5):
+def run(mod, parsed, fmt, n, flags, nframes, nread, boxkind, step=5, flags2=None, full=()):
+    flags2 = flags if flags2 is None else flags2
     pos = [z3.Real('p%d' % i) for i in range(3 * n)]; vel = [z3.Real('v%d' % i) for i in range(3 * n)]; frc = [z3.Real('f%d' % i) for i in range(3 * n)]
     L = [z3.Real('L%d' % i) for i in range(9)]
     box = [L[0], 0, 0, 0, L[4], 0, 0, 0, L[8]] if boxkind == 'orthorhombic' else [L[0], L[1], L[2], 0, L[4], L[5], 0, 0, L[8]]
     def body(it):
-        FIO.reset()
+        FIO.reset(); FIO.fullwidth = set(full)
         for i in (0, 4, 8): it.assume(L[i] > 0)
         if boxkind != 'orthorhombic': it.assume(z3.Or(L[1] != 0, L[2] != 0, L[5] != 0))
         pp = alloc_doubles(it, 'pos', pos); pv = alloc_doubles(it, 'vel', vel); pf = alloc_doubles(it, 'frc', frc); pb = alloc_doubles(it, 'box', box)
         op = it.alloc(8 * 48, 'op'); ov = it.alloc(8 * 48, 'ov'); of = it.alloc(8 * 48, 'of'); ob = it.alloc(72, 'ob'); om = it.alloc(8 * 20, 'om')
         for o, sz in ((op, 384), (ov, 384), (of, 384), (ob, 72), (om, 160)): it.zerofill(o, sz)
-        k = sgn64(it.call('@h_traj_rt', [fmt, n, pp, pv, pf, pb, flags, step, nframes, nread, op, ov, of, ob, om]))
+        k = sgn64(it.call('@h_traj_rt', [fmt, n, pp, pv, pf, pb, flags, step, nframes, nread, flags2, op, ov, of, ob, om]))
         return k, read_doubles(it, ob, 9), read_doubles(it, op, 3 * nread), read_doubles(it, ov, 3 * nread), read_doubles(it, of, 3 * nread), [sgn64(it.load(Ptr(om.obj, 8 * i), 8)) for i in range(2 + nread)], FIO.text('t.gro' if fmt == 0 else 't.dump')
     res, st = explore(mod, FIO.models(), body, parsed=parsed, max_paths=400)
     return res, st, (pos, vel, frc, box)
@@ -41,9 +42,16 @@ def check_traj(ck, tier, found):
                     for nframes in (1, 2):
                         if tier == 'quick' and (n, nframes) == (2, 2) and flags != flagsets[-1]: continue
                         cases.append((fmt, n, flags, nframes, boxkind))
-    for fmt, n, flags, nframes, boxkind in cases:
-        res, st, (pos, vel, frc, box) = run(mod, parsed, fmt, n, flags, nframes, n, boxkind); ck.stubs |= st['models_used']
-        desc = '%s, %d bead(s), %s%s, %s box, %d frame(s)' % (FMT[fmt], n, 'positions', {0: '', 2: ' + velocities', 6: ' + velocities + forces'}[flags], boxkind, nframes)
+    cases = [c + (None, ()) for c in cases]
+    # values that fill their whole fixed-width column (.gro bead lines, %8.3f / %8.4f): no blank separates neighbouring fields
+    cases += [(0, 1, 2, 1, 'orthorhombic', None, (8,)), (0, 2, 2, 2, 'orthorhombic', None, (8,)), (0, 1, 0, 1, 'orthorhombic', None, (8,))]
+    # a trajectory whose column layout changes from frame to frame (LAMMPS: the ITEM: ATOMS header is per frame)
+    cases += [(1, 1, 2, 2, 'orthorhombic', 6, ()), (1, 1, 6, 2, 'orthorhombic', 2, ()), (1, 2, 0, 2, 'orthorhombic', 6, ())]
+    for fmt, n, flags, nframes, boxkind, fl2, full in cases:
+        res, st, (pos, vel, frc, box) = run(mod, parsed, fmt, n, flags, nframes, n, boxkind, flags2=fl2, full=full); ck.stubs |= st['models_used']
+        last = flags if (fl2 is None or nframes == 1) else fl2
+        desc = '%s, %d bead(s), %s%s, %s box, %d frame(s)%s%s' % (FMT[fmt], n, 'positions', {0: '', 2: ' + velocities', 6: ' + velocities + forces'}[flags], boxkind, nframes, '' if fl2 is None else ', later frames with%s' % {0: ' positions only', 2: ' velocities', 6: ' velocities + forces'}[fl2], ', every value filling its whole column' if full else '')
+        flags_w = flags; flags = last
         ck.add_witness(desc + ': %d path(s)' % len(res), len(res) >= 1)
         q = []
         for it, (k, ob, op, ov, of, om, txt) in res:
@@ -59,7 +67,7 @@ def check_traj(ck, tier, found):
         name = 'trajectory %s: the reader returns the same number of frames and, for the last frame, the box matrix%s, positions%s in the original units' % (desc, ', step' if fmt == 1 else '', {0: '', 2: ', velocities', 6: ', velocities and forces'}[flags])
         s_, mdl = smt.agg_core(ck, name, q, TO)
         if s_ == 'sat':
-            found.append((name, {'clause': 'traj:roundtrip %s %s' % (('gro', 'lammps')[fmt], boxkind), 'fmt': fmt, 'n': n, 'flags': flags, 'nframes': nframes, 'nread': n, 'boxkind': boxkind, 'model': mdl, 'expect': 'roundtrip'}))
+            found.append((name, {'clause': 'traj:roundtrip %s %s%s%s' % (('gro', 'lammps')[fmt], boxkind, ' layout-change' if fl2 is not None else '', ' full-width' if full else ''), 'fmt': fmt, 'n': n, 'flags': flags_w, 'flags2': fl2, 'full': bool(full), 'nframes': nframes, 'nread': n, 'boxkind': boxkind, 'model': mdl, 'expect': 'roundtrip'}))
     # a frame whose atom count disagrees with the topology is reported as an error
     for fmt in (0, 1):
         for n, nread in ((2, 1), (1, 2)):
@@ -82,12 +90,18 @@ def replay_native(meta):
     n, nread, fmt, flags = meta['n'], meta['nread'], meta['fmt'], meta['flags']
     box = [3.0, 0, 0, 0, 4.0, 0, 0, 0, 5.0] if meta['boxkind'] == 'orthorhombic' else [3.0, 0.5, 0.25, 0, 4.0, 0.75, 0, 0, 5.0]
     pos = [0.125 * (i + 1) for i in range(3 * n)]; vel = [0.25 * (i + 1) for i in range(3 * n)]; frc = [0.5 * (i + 1) for i in range(3 * n)]
-    args = [str(x) for x in (fmt, n, flags, 5, meta['nframes'], nread)] + [repr(x) for x in box + pos + vel + frc]
+    if meta.get('full'):       # values that fill the 8-character columns: -100.125 (%8.3f), 100.0625 / -10.0625 (%8.4f)
+        pos = [-100.125 - i for i in range(3 * n)]; vel = [100.0625 + i if i % 2 == 0 else -10.0625 - i for i in range(3 * n)]; box = [3000.0, 0, 0, 0, 4000.0, 0, 0, 0, 5000.0]
+    fl2 = meta.get('flags2'); fl2 = flags if fl2 is None else fl2
+    args = [str(x) for x in (fmt, n, flags, 5, meta['nframes'], nread, fl2)] + [repr(x) for x in box + pos + vel + frc]
     rc, so, se = common.run_native(binp, args=args)
     line = [l for l in so.split('\n') if l.startswith('RESULT')]
     if not line: return True, 'native run gave no result: %s %s' % (so[-200:], se[-200:])
-    v = line[0].split()[1:]; k = int(v[0]); nb = int(v[2]); ob = [float(x) for x in v[3:12]]; op = [float(x) for x in v[12:12 + 3 * nread]]
+    v = line[0].split()[1:]; k = int(v[0]); nb = int(v[2]); ob = [float(x) for x in v[3:12]]; op = [float(x) for x in v[12:12 + 3 * nread]]; ovel = [float(x) for x in v[12 + 3 * nread:12 + 6 * nread]]; ofr = [float(x) for x in v[12 + 6 * nread:12 + 9 * nread]]
     if meta['expect'] == 'error':
         return k != -1, 'native: frame with %d atoms read into a topology with %d beads: reader %s' % (n, nread, 'threw' if k == -1 else 'returned normally (%d frame(s))' % k)
+    lastfl = fl2 if meta['nframes'] > 1 else flags
     bad = k != meta['nframes'] or any(abs(a - b) > 1e-3 for a, b in zip(ob, box)) or any(abs(a - b) > 1e-3 for a, b in zip(op, pos))
-    return bad, 'native: wrote box %s, read back %s; positions %s -> %s; frames %d' % (box, ob, pos, op, k)
+    if lastfl & 2: bad = bad or any(abs(a - b) > 1e-3 for a, b in zip(ovel, vel))
+    if lastfl & 4: bad = bad or any(abs(a - b) > 1e-3 * max(1, abs(b)) for a, b in zip(ofr, frc))
+    return bad, 'native: wrote box %s, read back %s; positions %s -> %s; velocities %s -> %s; forces -> %s; frames %d' % (box, ob, pos, op, vel, ovel, ofr, k)
